@@ -58,6 +58,7 @@ type Conn struct {
 	closedLocal bool
 	closedPeer  bool
 	FramesIn    int
+	LostWrites  int // bytes written after the peer closed
 	BadStream   string
 }
 
@@ -140,6 +141,7 @@ func (c *Conn) Write(b []byte) (int, error) {
 		return 0, errClosed
 	}
 	if c.closedPeer {
+		c.LostWrites += len(b)
 		return len(b), nil // goes nowhere, like bytes written to a half-closed socket
 	}
 	c.out = append(c.out, b...)
@@ -288,3 +290,5 @@ func (m *MemStore) Store(s *session.Session) error {
 	m.Stores = append(m.Stores, c)
 	return nil
 }
+
+func (c *Conn) Announced() bool { return c.announced }
